@@ -274,9 +274,14 @@ def write_if_changed(path, text):
 
 def coq_make(targets, timeout=1500):
     """make -k the given .vo targets (full .vo build); returns (ok, log)"""
+    # the global lock only protects Makefile/_CoqProject regeneration; builds
+    # of different targets may overlap (shared prerequisites are normally up
+    # to date), builds of the same target are serialised
     with Lock("coq"):
         coq_makefile()
-        rc, out = sh(["make", "-k", "-j%d" % NPROC] + targets, cwd=COQ, timeout=timeout)
+    tl = "coq-" + hashlib.sha256(" ".join(sorted(targets)).encode()).hexdigest()[:10]
+    with Lock(tl):
+        rc, out = sh(["make", "-k", "-j%d" % max(4, NPROC // 2)] + targets, cwd=COQ, timeout=timeout)
     return rc == 0, out
 
 
@@ -407,7 +412,7 @@ def prove(prop_file, allowed_axioms, timeout=1500):
                     res["discharged"].append(t)
         return res
     # recompile the Props file alone to capture Print Assumptions
-    with Lock("coq"):
+    with Lock("coqc-" + prop_file):
         rc, out = sh(["coqc"] + coq_flags() + [vrel], cwd=COQ, timeout=timeout)
     if rc != 0:
         res["failure"] = coq_first_error(out) or {"file": vrel, "line": 0, "lemma": None, "message": out[-800:]}
